@@ -22,7 +22,7 @@ type c08Event struct {
 	Batch   []c08Event `json:"batch,omitempty"`
 }
 
-var c08VariantNames = []string{"clean", "syntax", "unused", "undefined", "defglobal", "useglobal", "require", "requiremissing", "annoclass", "useannoclass", "dupkey", "empty"}
+var c08VariantNames = []string{"clean", "syntax", "unused", "undefined", "defglobal", "useglobal", "require", "requiremissing", "annoclass", "useannoclass", "dupkey", "empty", "undefinedB", "requiremissingB", "useglobalB"}
 
 // c08Variant renders content variant v for file index i of n files.
 func c08Variant(v string, i, n int, layout string) string {
@@ -50,6 +50,14 @@ func c08Variant(v string, i, n int, layout string) string {
 		return fmt.Sprintf("---@type Cls%d\nlocal v%d = {}\nprint(v%d.fa%d, v%d.nofield%d)\n", nxt, i, i, nxt, i, i)
 	case "dupkey":
 		return fmt.Sprintf("local t%d = { k = 1, k = 2 }\nprint(t%d == t%d)\n", i, i, i)
+	// the B variants differ from their twins only in a name of the same length: the diagnostics keep type and range and
+	// change their message only
+	case "undefinedB":
+		return fmt.Sprintf("local a%d = %d\nprint(a%d, nowhereDefinex%d)\n", i, i, i, i)
+	case "requiremissingB":
+		return fmt.Sprintf("local m%d = require(\"nomox%d\")\nprint(m%d)\n", i, i, i)
+	case "useglobalB":
+		return fmt.Sprintf("local a%d = GSharex%d\nprint(a%d, GFunc%d(1, 2, 3))\n", i, nxt, i, nxt)
 	case "empty":
 		return "" // a file of zero bytes
 	}
@@ -267,7 +275,7 @@ func runC08(c *Ctx) {
 		}
 	})
 	c.Finish("histories of 5-40 events (create/external change/delete with watched-file notifications, open, unsaved edit, save, close, batches) over 3-6 files whose content "+
-		"switches between 12 variants (empty file, clean, syntax error, unused local, undefined name, defines/uses a cross-file global, requires an existing/missing module, annotation "+
+		"switches between 15 variants (empty file, three pairs of twins whose diagnostics differ in the message only, clean, syntax error, unused local, undefined name, defines/uses a cross-file global, requires an existing/missing module, annotation "+
 		"class defined/used, duplicate key); at every quiescent point the live client view and probe answers are compared with a fresh server on the same directory; while a "+
 		"buffer is dirty its file's view is compared with the buffer's own syntax errors. distinct_nontrivial = distinct (history prefix) states compared with a fresh server", 40)
 }
